@@ -470,7 +470,18 @@ func VerifH_C15_edges() {
 		},
 	}
 	labels := []string{l1}
-	if BOTH == 1 && vChoice("second-edge-table", 2) == 1 {
+	if vParam("REV", 0) == 1 && vChoice("same-table-reversed", 2) == 1 {
+		// the same link table exposed as a second edge type in the opposite direction
+		// (from and to fields exchanged); row ids of the two vertex tables may coincide
+		l2 := c15ID("e2.label", 'A', 'B')
+		for _, e := range append([]c15Edge{}, ref...) {
+			ref = append(ref, c15Edge{id: e.to + "-" + l2 + "-" + e.from, from: e.to, to: e.from, label: l2, w: e.w})
+		}
+		conf.Edges["e2"] = EdgeConfig{From: "b:", To: "a:", Label: l2, Data: ElementConfig{Source: "s", Collection: "lt", FromField: "to", ToField: "from"}}
+		if l2 != l1 {
+			labels = append(labels, l2)
+		}
+	} else if BOTH == 1 && vChoice("second-edge-table", 2) == 1 {
 		// a second link table in the opposite direction
 		l2 := c15ID("e2.label", 'A', 'B')
 		w := c15ID("lu0.w", 'x', 'y')
